@@ -31,7 +31,7 @@ def determinism(n):
         bad += len(mism) + len(mism_s)
         print("%s: %d runs x2 (16 vs 3 workers) mismatches=%d; %d runs san twice (8 vs 2 workers) mismatches=%d; crashes=%d" % (p, len(ha), len(mism), len(hs), len(mism_s), len(ca) + len(cb) + len(cs)), mism[:5], mism_s[:5])
     print("determinism: %d executions compared, %d mismatches" % (total, bad))
-    json.dump({"executions_compared": total, "mismatches": bad}, open(os.path.join(VERIF, "evidence", "_determinism.json"), "w"))
+    json.dump({"executions_compared": total, "mismatches": bad}, open(os.path.join(VERIF, "selftest_results", "determinism.json"), "w"))
     sys.exit(1 if bad else 0)
 
 def fidelity(n):
@@ -61,7 +61,7 @@ def fidelity(n):
     print("fidelity:", tot)
     for d in bad[:10]:
         print("  run", d["run"], d["mismatch"][:300])
-    json.dump(tot, open(os.path.join(VERIF, "evidence", "_fidelity.json"), "w"))
+    json.dump(tot, open(os.path.join(VERIF, "selftest_results", "fidelity.json"), "w"))
     sys.exit(1 if tot["mismatching_runs"] else 0)
 
 if __name__ == "__main__":
